@@ -176,7 +176,7 @@ def make_malformed(rng, net, sessions, how):
 ID_STYLES = ["pad", "pad", "dash", "num", "mixed", "falsy"]
 
 
-def gen_input(rng, tier="quick", malformed=None, family=None):
+def gen_input(rng, tier="quick", malformed=None, family=None, shared_ids=False):
     net = gen_network(rng)
     horizon = 36 if tier == "quick" else 60
     sessions = gen_sessions(rng, net, horizon=horizon)
@@ -200,6 +200,17 @@ def gen_input(rng, tier="quick", malformed=None, family=None):
                sched=dict(kind=sched_kind, seed=rng.randrange(10 ** 9)), malformed=malformed,
                idstyle=rng.choice(ID_STYLES), family=family or "plain",
                np_types=rng.random() < 0.3)
+    if shared_ids and not malformed and len({s["station"] for s in sessions}) >= 2:
+        # unusual but legal: one session id used on two different stations (ids numbered per station,
+        # merged batches), preferably by sessions that are connected at the same time
+        pairs = [(a, b) for a in sessions for b in sessions if a["station"] != b["station"] and a["sid"] < b["sid"]]
+        live = [(a, b) for a, b in pairs if a["arrival"] < b["departure"] and b["arrival"] < a["departure"]
+                and a["arrival"] != b["arrival"]]
+        for _ in range(rng.choice([1, 1, 2])):
+            a, b = rng.choice(live or pairs)
+            if len({(x["sid"], x["station"]) for x in sessions} - {(b["sid"], b["station"])} | {(a["sid"], b["station"])}) == len(sessions):
+                b["sid"] = a["sid"]
+        inp["shared_ids"] = True
     if not malformed and sessions and rng.random() < 0.06:
         # remaining demand exactly on / one ulp around the 1e-3 activity threshold (monitors only: the
         # exact-arithmetic model is skipped within 1e-7 of a float decision threshold)
@@ -716,7 +727,8 @@ def trace_of(sim, rec, err, stage):
     hist = []
     for e in sim.event_history:
         ev = getattr(e, "ev", None)
-        hist.append((e.event_type, int(e.timestamp), nm.sess_num(ev.session_id) if ev is not None else -1))
+        hist.append((e.event_type, int(e.timestamp), nm.sess_num(ev.session_id) if ev is not None else -1,
+                     nm.st_num(ev.station_id) if ev is not None else -1))
     tags, prev = [], 0
     for (t, _, n) in rec.occ:        # period in which each event was processed
         tags += [t] * (n - prev)
@@ -859,7 +871,7 @@ def input_coq(inp, impl):
 def canon_hist(hist):
     """(period, type, ts, session) -> (period, code, ts, session number), maximal runs of equal
     (period, code, ts) sorted by session number (heap order inside such a run is C11's business)"""
-    rows = [(t, TYPE_CODE.get(ty, -1), ts, s) for (t, ty, ts, s) in hist]
+    rows = [(h[0], TYPE_CODE.get(h[1], -1), h[2], h[3]) for h in hist]
     out = []
     for _, grp in itertools.groupby(rows, key=lambda r: r[:3]):
         out += sorted(grp, key=lambda r: r[3])
@@ -880,7 +892,7 @@ def occ_coq(occ):
 def is_valid_input(inp):
     nums = {st["num"] for st in inp["net"]["stations"]}
     ss = inp["sessions"]
-    if len({s["sid"] for s in ss}) != len(ss):
+    if len({(s["sid"], s["station"]) for s in ss}) != len(ss):      # identity = (session id, station)
         return False
     for s in ss:
         if s["station"] not in nums or not (0 <= s["arrival"] < s["departure"]):
@@ -910,12 +922,12 @@ def monitor_c01(inp, impl):
         return "a station is still occupied after run()"
     hist = impl["hist"]
     for s in inp["sessions"]:
-        plug = [h for h in hist if h[1] == "Plugin" and h[3] == s["sid"]]
-        unpl = [h for h in hist if h[1] == "Unplug" and h[3] == s["sid"]]
+        plug = [h for h in hist if h[1] == "Plugin" and h[3] == s["sid"] and h[4] == s["station"]]
+        unpl = [h for h in hist if h[1] == "Unplug" and h[3] == s["sid"] and h[4] == s["station"]]
         if len(plug) != 1 or plug[0][0] != s["arrival"]:
-            return "session %s plugged %d times / in period %s (arrival %d)" % (s["sid"], len(plug), [h[0] for h in plug], s["arrival"])
+            return "session %s@%s plugged %d times / in period %s (arrival %d)" % (s["sid"], s["station"], len(plug), [h[0] for h in plug], s["arrival"])
         if len(unpl) != 1 or unpl[0][0] != s["departure"]:
-            return "session %s unplugged %d times / in period %s (departure %d)" % (s["sid"], len(unpl), [h[0] for h in unpl], s["departure"])
+            return "session %s@%s unplugged %d times / in period %s (departure %d)" % (s["sid"], s["station"], len(unpl), [h[0] for h in unpl], s["departure"])
     keys = [(h[2], EXPECTED_RANK[h[1]]) for h in hist]
     if keys != sorted(keys):
         return "event_history is not ordered by (time, departures < arrivals < recomputes)"
